@@ -116,6 +116,18 @@ def proj_calibration(ps):
     return out
 
 
+def proj_parset_values(ps):
+    """the values a parameter set simulates with (besides its calibration): {(name, source pop or None): {pop: ts projection}}"""
+    out = {}
+    for name, par in ps.pars.items():
+        out[(name, None)] = {pop: ts_proj(ts) for pop, ts in par.ts.items()}
+    for store in (ps.transfers, ps.interactions):
+        for name, d in store.items():
+            for src, par in d.items():
+                out[(name, src)] = {pop: ts_proj(ts) for pop, ts in par.ts.items()}
+    return out
+
+
 def first_field(path):
     """root-cause-ish class of a projection path: drop names, keep the structural field"""
     parts = [p for p in path.split("/") if p]
